@@ -424,6 +424,83 @@ def _expand_combinators(mir, j, name, rec, skip):
                             'term': {'k': 'goto', 'target': t['target']}})
 
 
+LOOP_CONSUMERS = {'std::iter::Iterator::try_for_each': 'try', 'std::iter::Iterator::for_each': 'each'}
+
+
+def _expand_closure_loops(mir, j, name):
+    """`iter.for_each(closure)` / `iter.try_for_each(closure)` with a closure created in this body is the loop it stands for:
+    `loop { match iter.next() { Some(x) => closure(x) [?], None => break } }` with the closure body inlined (its environment parameter is a
+    reference to the closure value, so captured variables resolve to the creator's places) - so that path rules written for `for` loops judge
+    the iterator-chain form of the same loop."""
+    import copy
+    for b in range(len(j['blocks'])):
+        t = j['blocks'][b]['term']
+        if t['k'] != 'call' or t.get('target') is None or len(t.get('args', [])) != 2:
+            continue
+        callee = t['callee'] or t['raw']
+        kind = LOOP_CONSUMERS.get(t['raw']) or LOOP_CONSUMERS.get(callee.split('<')[0] if not callee.startswith('<') else callee)
+        if kind is None:
+            for k_, v_ in LOOP_CONSUMERS.items():
+                if callee.endswith('::' + k_.split('::')[-1]) and 'Iterator' in callee:
+                    kind = v_
+        if kind is None:
+            continue
+        ca = t['args'][1]
+        cl = (ca.get('move') or ca.get('copy') or {}).get('l') if isinstance(ca, dict) else None
+        it = t['args'][0]
+        itl = (it.get('move') or it.get('copy') or {}).get('l') if isinstance(it, dict) else None
+        if cl is None or itl is None:
+            continue
+        cname_ = None
+        for blk in j['blocks']:
+            for st in blk['stmts']:
+                if st['lhs']['l'] == cl and not st['lhs']['p'] and st['rv']['rk'] == 'aggregate' and st['rv']['agg'].startswith('closure:'):
+                    cname_ = st['rv']['agg'][len('closure:'):]
+        if cname_ is None or cname_ not in mir.bodies:
+            continue
+        cb = mir.bodies[cname_]
+        if cb.arg_count != 2 or len(cb.blocks) > 200:
+            continue
+        sp = t.get('span')
+        it_ty = j['locals'][itl]
+        while it_ty.startswith('&'):
+            it_ty = it_ty[1:].lstrip()
+            if it_ty.startswith('mut '):
+                it_ty = it_ty[4:]
+        nl = len(j['locals'])
+        j['locals'].extend(['std::option::Option<item>', 'isize', 'isize'])
+        optl, d1, d2 = nl, nl + 1, nl + 2
+        loff = len(j['locals'])
+        j['locals'].extend(cb.locals)
+        nb = len(j['blocks'])
+        H, S, BODY, DONE, AFTER_ERR = nb, nb + 1, nb + 2, nb + 3, nb + 4
+        boff = nb + 5
+        j['blocks'][b]['term'] = {'k': 'goto', 'target': H, 'expanded_loop': callee}
+        j['blocks'].append({'stmts': [], 'term': {'k': 'call', 'raw': 'std::iter::Iterator::next', 'callee': f'<{it_ty} as std::iter::Iterator>::next', 'generics': f'[{it_ty}]',
+                                                  'self_ty': it_ty, 'indirect': False, 'args': [{'copy': {'l': itl, 'p': []}}], 'dest': {'l': optl, 'p': []}, 'target': S,
+                                                  'unwind': t.get('unwind'), 'span': sp}})
+        j['blocks'].append({'stmts': [{'lhs': {'l': d1, 'p': []}, 'rv': {'rk': 'discriminant', 'place': {'l': optl, 'p': []}}, 'span': sp}],
+                            'term': {'k': 'switch', 'discr': {'move': {'l': d1, 'p': []}}, 'targets': [[0, DONE]], 'otherwise': BODY, 'span': sp}})
+        pay = {'l': optl, 'p': [{'downcast': 'Some'}, {'f': '0', 'i': 0, 'adt': 'std::option::Option', 'variant': 'Some'}]}
+        j['blocks'].append({'stmts': [{'lhs': {'l': loff + 1, 'p': []}, 'rv': {'rk': 'ref', 'place': {'l': cl, 'p': []}, 'mut': True}, 'span': sp},
+                                      {'lhs': {'l': loff + 2, 'p': []}, 'rv': {'rk': 'use', 'ops': [{'move': pay}]}, 'span': sp}],
+                            'term': {'k': 'goto', 'target': boff}})
+        done_stmts = []
+        if kind == 'try':
+            done_stmts = [{'lhs': t['dest'], 'rv': {'rk': 'aggregate', 'agg': 'adt:std::result::Result::Ok', 'fields': ['0'], 'ops': [{'const': 'const ()', 'ty': '()'}]}, 'span': sp}]
+        j['blocks'].append({'stmts': done_stmts, 'term': {'k': 'goto', 'target': t['target']}})
+        j['blocks'].append({'stmts': [{'lhs': t['dest'], 'rv': {'rk': 'use', 'ops': [{'move': {'l': loff, 'p': []}}]}, 'span': sp}], 'term': {'k': 'goto', 'target': t['target']}})
+        for cblk in cb.blocks:
+            nbk = _renumber(copy.deepcopy(cblk), loff, boff)
+            if nbk['term']['k'] == 'return':
+                if kind == 'try' and 'Result' in cb.locals[0]:
+                    nbk['stmts'].append({'lhs': {'l': d2, 'p': []}, 'rv': {'rk': 'discriminant', 'place': {'l': loff, 'p': []}}, 'span': sp})
+                    nbk['term'] = {'k': 'switch', 'discr': {'move': {'l': d2, 'p': []}}, 'targets': [[0, H]], 'otherwise': AFTER_ERR, 'span': sp}
+                else:
+                    nbk['term'] = {'k': 'goto', 'target': H}
+            j['blocks'].append(nbk)
+
+
 def inline_front_end(mir, extra=()):
     """The generating entry may delegate its front-end steps (parse, validate, collect the bind group data) to small sibling helpers
     (`parse_module`, `check_module`, `validate_module`, ..).  Find the function that joins the front end with the emission functions - the one
@@ -474,6 +551,7 @@ def inlined(mir, name, depth=2, max_blocks=400, skip=()):
     cg = mir.call_graph()
     rec = {n for comp in mir.sccs() if len(comp) > 1 or comp[0] in cg[comp[0]] for n in comp}
     _expand_combinators(mir, j, name, rec, skip)
+    _expand_closure_loops(mir, j, name)
     for _ in range(depth):
         changed = False
         nblocks0 = len(j['blocks'])
